@@ -164,6 +164,13 @@ def _check_table(acc, case, spell, gcol, hcol, fcol, f2col):
                 fail("pc_conditional/%s" % ("weights" if w is not None else "uniform"), exp, r, note="weights=%r by=%r" % (w, byv))
                 return
             acc.ok(("pcc", wname, round(exp, 12) if exp == exp else None), nontrivial=nt)
+        if w is not None:
+            wa = np.array(w, dtype=float)
+            r = acc.call(pyrepseq.pc_conditional, df, by, on, group_weights=wa)
+            if raised(r) or not feq(r, exp) or wa.tolist() != [float(x) for x in w]:
+                fail("pc_conditional/ndarray-weights", {"value": exp, "weights": w}, {"value": r, "weights": wa.tolist()})
+                return
+            acc.ok()
     # ---- pc_grouped_cross
     r = acc.call(pyrepseq.pc_grouped_cross, df, by, on)
     expm = [[NAN if a == b else float(ref_pc2([rows[i] for i in gs[a]], [rows[i] for i in gs[b]])) for b in names] for a in names]
